@@ -90,19 +90,25 @@ CTX_PER_CASE = 5
 
 def plan(tier):
     return {"cases": NB[tier] + NA[tier], "shards": 8 if tier == "quick" else 14,
-            "min_nontrivial": 3000, "timeout": 600 if tier == "quick" else 2400,
+            "min_nontrivial": 30000, "timeout": 600 if tier == "quick" else 2400,
             "require": {
-                "parta_pairs": 20000, "parta_text_compared": 12000, "parta_strict_runs": 5000,
-                "missing_var_warning_checked": 2000, "strict_error_expected_and_raised": 1000,
-                "unknown_include_checked": 300, "ref_include_depth1": 2000, "ref_include_depth2": 500,
-                "ref_include_depth3": 100, "ref_each_iterations": 5000, "ref_each_dict_items": 1000,
-                "ref_if_true": 1000, "ref_if_false": 500, "ref_else_taken": 500, "ref_def_used": 1000,
-                "ref_def_bound": 1000, "ref_opt_missing": 500, "ref_opt_bound": 1000, "ref_loop_bound_var": 3000,
-                "ref_filter_upper": 200, "ref_filter_json": 200, "ref_filter_rev": 200,
-                "via_translate_name": 3000, "via_translate_mrna": 3000, "via_synthesize": 3000,
-                "partb_combos": 20000, "partb_opaque_ok": 5000, "partb_baseline_ok": 20000,
-                "reach:_process_conditionals": 20000, "reach:_process_loops": 20000,
-                "reach:_process_includes": 20000, "reach:_process_variables": 20000,
+                # Part A workload actually judged
+                "parta_pairs": 50000, "parta_text_compared": 40000, "parta_strict_runs": 15000,
+                "missing_var_warning_checked": 3000, "strict_error_expected_and_raised": 1500,
+                "unknown_include_checked": 3000, "ref_include_depth1": 25000, "ref_include_depth2": 15000,
+                "ref_include_depth3": 5000, "ref_each_iterations": 60000, "ref_each_dict_items": 30000,
+                "ref_loop_bound_var": 10000, "ref_dot": 10000,
+                "ref_if_true": 15000, "ref_if_false": 8000, "ref_else_taken": 8000, "ref_def_used": 3000,
+                "ref_def_bound": 30000, "ref_opt_missing": 3000, "ref_opt_bound": 25000,
+                "ref_var_bound": 40000, "ref_var_missing": 8000,
+                "ref_filter_upper": 3000, "ref_filter_lower": 3000, "ref_filter_trim": 3000, "ref_filter_title": 3000,
+                "ref_filter_length": 3000, "ref_filter_json": 3000, "ref_filter_repr": 3000, "ref_filter_rev": 3000,
+                "via_translate_name": 15000, "via_translate_mrna": 15000, "via_synthesize": 15000,
+                # Part B sweep
+                "partb_combos": 40000, "partb_baseline_ok": 40000, "partb_opaque_ok": 10000,
+                # anchored passes of the real renderer entered
+                "reach:_process_conditionals": 200000, "reach:_process_loops": 200000,
+                "reach:_process_includes": 200000, "reach:_process_variables": 200000,
             }}
 
 
